@@ -47,6 +47,7 @@ type Ctx struct {
 	provBusy map[provKey]bool
 	libraryIndexed map[*ssa.Function]bool
 	vtaG *callgraph.Graph
+	nm   *Names
 }
 
 // LoadOpts selects the build configuration and an optional overlay.
@@ -372,6 +373,7 @@ type Report struct {
 	funcsSeen   map[string]bool
 	Matrix      map[string]map[string]int
 	SelfTest    []map[string]any
+	baseObls    int
 }
 
 func newReport(prop, tier string) *Report {
